@@ -1,13 +1,21 @@
 CONFIG = {
     "id": "C09",
-    "coq_targets": ["Props/C09.v", "Model/SimCheck.v"],
+    "coq_targets": ["Model/SweepCheck.v", "Props/C09.v", "Model/SimCheck.v"],
     "prop_files": ["Props/C09.v"],
-    "gen": [],
+    "gen": ["Globals"],
     "components": [{
         "name": "sim", "modules": ["Base.NumOps", "Model.Turn", "Model.Sim", "Model.SimCheck"],
         "check": "check_case", "monitor": "monitor_c09", "model_out": "monitor_detail",
         "case_type": "case", "ops_path": None, "mismatch_is_violation": False,
         "n_quick": 900, "n_thorough": 12000, "shard": 150,
+    }, {
+        # real content: every registered character / light cone / relic set with generated builds, scripts, seeds and
+        # enemies (the C20 sweep); the harness recomputes the result from the logged hits, the Termination and the
+        # series (Go side, content.go resultClause) - shields, crits, DoTs, follow-ups, revives all occur here
+        "name": "sweep", "modules": ["Base.GlobalTypes", "Model.RunSpec", "Model.Catalog", "Model.SweepCheck"],
+        "check": "check_c09", "monitor": "monitor_c09", "model_out": "model_out",
+        "case_type": "case", "ops_path": None,
+        "n_quick": 200, "n_thorough": 8000, "shard": 200,
     }],
     "rule": "scripted battles on the REAL simulation.Simulation: 1-4 registered harness characters (6 kinds: speeds, SP "
             "costs, target types, a Skill.CanUse / Ult.CanUse check of their own), 1-5 harness enemies (HP 50-400, speeds incl. ties), 5-14 content scripts of engine calls "
